@@ -652,10 +652,10 @@ def aux_lifetime(ctx):
               "a cloned auxiliary can have only one main frame")
     reg = [n for n in A.cfg.nodes if any(isinstance(x, ast.Subscript) and isinstance(x.ctx, ast.Store) and
                                         dotted(x.value) == "self.framer.auxes" for x in A.cfg.walk_node(n))]
-    nt = A.tests(lambda t: src(t) == "aux.name not in self.framer.auxes")
-    st = A.tests(lambda t: src(t) == "self.framer.auxes[aux.name] is not aux")
-    ok = bool(reg) and bool(nt) and all(A.dominated_by_edge([r], nt[0], "T") for r in reg) and bool(st) and \
-        any(A.dominated_by_edge([r], st[0], "T") for r in raises)
+    nt = A.ptests("aux.name not in self.framer.auxes")
+    st = A.ptests("self.framer.auxes[aux.name] is not aux")
+    ok = bool(reg) and bool(nt) and all(A.under([r], nt[0]) for r in reg) and bool(st) and \
+        any(A.under([r], st[0]) for r in raises)
     ctx.check(ok, "T1-owner", ra, "original: registered once per name in framer.auxes, a different aux of the same name is refused",
               "auxiliary names are unique within a framer")
     cd = ctx.fn("completing", "CompleteDone.action")
